@@ -116,7 +116,7 @@ def tlc(module, cfg, env=None, workers=1, timeout=1700, xmx="8g", extra=None, ta
     for f in os.listdir(SPEC):
         if f.endswith(".tla") or f.endswith(".cfg") or f.endswith(".json"):
             shutil.copy(os.path.join(SPEC, f), wd)
-    cmd = ["java", "-XX:+UseParallelGC", "-Xmx" + xmx, "-Xss64m", "-cp", TLA_CP, "tlc2.TLC",
+    cmd = ["java", "-XX:+UseParallelGC"] + (["-XX:ParallelGCThreads=2"] if workers == 1 else []) + ["-Xmx" + xmx, "-Xss64m", "-cp", TLA_CP, "tlc2.TLC",
            "-workers", str(workers), "-metadir", os.path.join(wd, "md"), "-config", cfg]
     if simulate:
         cmd += ["-simulate", simulate]
@@ -196,7 +196,14 @@ def gen_sim(module, cfg, name, num, depth, seed, procs=8):
     return out, n
 
 
-def judge(module, files, par=8, timeout=1700, xmx="6g", cfg=None):
+def open_finding_ids(prop):
+    p = os.path.join(VERIF, "known_findings.json")
+    if not os.path.exists(p):
+        return []
+    return sorted(k["id"] for k in json.load(open(p)) if prop in k.get("properties", [k.get("property")]) and k.get("status") == "open")
+
+
+def judge(module, files, par=8, timeout=1700, xmx="6g", cfg=None, prop=None):
     """Validates recorded trace files against the trace spec <module>. Returns
     dict(n, bad=[(file, index, event)], states, extra=[verdict records])."""
     cfg = cfg or (module + ".cfg")
@@ -206,7 +213,10 @@ def judge(module, files, par=8, timeout=1700, xmx="6g", cfg=None):
         out = os.path.join(WORK, "verdict-%d-%s.json" % (os.getpid(), os.path.basename(path)))
         if os.path.exists(out):
             os.remove(out)
-        r = tlc(module, cfg, env=dict(TRACE=path, OUT=out), workers=1, timeout=timeout, xmx=xmx, tag=wd_tag)
+        kfp = out + ".kf"
+        with open(kfp, "w") as kf_:
+            json.dump(dict(open=open_finding_ids(prop) if prop else []), kf_)
+        r = tlc(module, cfg, env=dict(TRACE=path, OUT=out, KF=kfp), workers=1, timeout=timeout, xmx=xmx, tag=wd_tag)
         shutil.rmtree(r["wd"], ignore_errors=True)
         if not r["ok"]:
             raise Machinery("judge %s on %s failed:\n%s" % (module, path, r["error"]))
@@ -214,25 +224,29 @@ def judge(module, files, par=8, timeout=1700, xmx="6g", cfg=None):
             raise Machinery("judge %s on %s wrote no verdict" % (module, path))
         v = json.load(open(out))
         os.remove(out)
+        os.remove(kfp)
         v["_file"] = path
         v["_states"] = r["distinct"]
         return v
 
     with ThreadPoolExecutor(max_workers=par) as ex:
         verdicts = list(ex.map(one, files))
-    res = dict(n=0, bad=[], states=0, verdicts=verdicts)
+    res = dict(n=0, bad=[], states=0, verdicts=verdicts, kf=[])
     for v in verdicts:
         nlines = sum(1 for _ in open(v["_file"]))
         if v["n"] != nlines:
             raise Machinery("judge consumed %d of %d events of %s" % (v["n"], nlines, v["_file"]))
         res["n"] += v["n"]
         res["states"] += v["_states"]
-        if v["bad"]:
+        kfmap = {x["i"]: x["ids"] for x in v.get("kf", [])}
+        if v["bad"] or kfmap:
             want = set(v["bad"])
             with open(v["_file"]) as f:
                 for i, line in enumerate(f, 1):
                     if i in want:
                         res["bad"].append((v["_file"], i, json.loads(line)))
+                    elif i in kfmap:
+                        res["kf"].append((v["_file"], i, sorted(kfmap[i]), json.loads(line) if len(res["kf"]) < 200 else None))
     return res
 
 
@@ -243,7 +257,7 @@ def load_known(prop):
     p = os.path.join(VERIF, "known_findings.json")
     if not os.path.exists(p):
         return []
-    return [k for k in json.load(open(p)) if k["property"] == prop and k.get("status") == "open"]
+    return [k for k in json.load(open(p)) if prop in k.get("properties", [k.get("property")]) and k.get("status") == "open"]
 
 
 def _get(ev, path):
@@ -307,18 +321,23 @@ class Check:
             if len(self.cov["samples"]) < 6:
                 self.cov["samples"].append(strip_h(s))
 
-    def run_and_judge(self, hargs, module, race=False, par=8, keep=False, env=None, timeout=3600):
+    def run_and_judge(self, hargs, module, race=False, par=10, keep=False, env=None, timeout=3600, xmx="6g"):
         """harness driver -> trace files -> TLC judge; collects divergences."""
         stats, _ = harness(hargs, race=race, env=env, timeout=timeout)
         files = stats["files"]
         if stats["events"] == 0:
             raise Machinery("driver %s produced an empty trace" % hargs[0])
-        res = judge(module, files, par=par)
+        res = judge(module, files, par=par, prop=self.prop, xmx=xmx)
         if res["n"] != stats["events"]:
             raise Machinery("judge saw %d events, driver wrote %d" % (res["n"], stats["events"]))
         self.add_stats(stats)
         self.judged.append(dict(module=module, events=res["n"], states=res["states"], driver=" ".join(str(a) for a in hargs)))
-        known = load_known(self.prop)
+        allk = {k["id"]: k for k in (json.load(open(os.path.join(VERIF, "known_findings.json")))
+                                     if os.path.exists(os.path.join(VERIF, "known_findings.json")) else [])}
+        for (f, i, ids, ev) in res["kf"]:
+            for fid in ids:
+                self.known_hits.setdefault(fid, [allk[fid], 0])[1] += 1
+        known = [k for k in load_known(self.prop) if k.get("match")]
         for (f, i, ev) in res["bad"]:
             k = match_known(known, ev)
             if k:
